@@ -221,8 +221,12 @@ type ChunkWriter struct {
 
 // WriteChunk is called with chunked ServiceInfos.
 func (w *ChunkWriter) WriteChunk(kv *KV) error {
+	if kv == nil {
+		return errors.New("service info contains a null entry")
+	}
+
 	// If the key hasn't changed, keep streaming data
-	if kv.Key == w.prevKey {
+	if kv.Key == w.prevKey && w.w != nil {
 		_, err := w.w.Write(kv.Val)
 		return err
 	}
